@@ -544,7 +544,11 @@ async fn stream_events(
     };
 
     let receiver = handle.subscribe();
+    #[cfg(rip_verif)]
+    rip_kernel::verif::point("sse.session.subscribed");
     let past = handle.events_snapshot().await;
+    #[cfg(rip_verif)]
+    rip_kernel::verif::point("sse.session.snapshotted");
 
     let last_seq = past.last().map(|event| event.seq);
     let past_stream = tokio_stream::iter(past).filter_map(|event| async move {
@@ -1262,6 +1266,8 @@ async fn thread_stream_events(
 ) -> impl IntoResponse {
     let store = state.engine.continuities();
     let receiver = store.subscribe();
+    #[cfg(rip_verif)]
+    rip_kernel::verif::point("sse.thread.subscribed");
 
     let past = match store.replay_events(&thread_id) {
         Ok(events) => events,
@@ -1270,6 +1276,8 @@ async fn thread_stream_events(
         }
         Err(_) => return StatusCode::INTERNAL_SERVER_ERROR.into_response(),
     };
+    #[cfg(rip_verif)]
+    rip_kernel::verif::point("sse.thread.snapshotted");
     // If there are no frames in the stream, treat the thread id as unknown.
     // (The truth of thread existence is its continuity event stream.)
     if past.is_empty() {
@@ -1451,7 +1459,11 @@ async fn stream_task_events(
     };
 
     let receiver = handle.subscribe();
+    #[cfg(rip_verif)]
+    rip_kernel::verif::point("sse.task.subscribed");
     let past = handle.events_snapshot().await;
+    #[cfg(rip_verif)]
+    rip_kernel::verif::point("sse.task.snapshotted");
 
     let last_seq = past.last().map(|event| event.seq);
     let past_stream = tokio_stream::iter(past).filter_map(|event| async move {
